@@ -204,8 +204,8 @@ def oracle_expressions(ctx, rng, n):
                             return
 
 
-UNITY = "Subfactor,Type,Coolant,Film,Cladding\nPower,Direct,1,1,1\nFlow,Direct,1.0,1,1\nProperties,Statistical,1,1,1\nFilm HTC,Statistical,1,1.0,1\n"
-SKEWED = "Subfactor,Type,Coolant,Film,Cladding\nPower,Direct,1.05,1.02,1.02\nFlow,Direct,1.03,1,1\nProperties,Statistical,1.02,1.1,1.05\nFilm HTC,Statistical,1,1.12,1\n"
+UNITY = "Subfactor,Type,Coolant,Film,Cladding,Gap,Fuel\nPower,Direct,1,1,1,1,1\nFlow,Direct,1.0,1,1,1,1\nProperties,Statistical,1,1,1,1,1\nFilm HTC,Statistical,1,1.0,1,1,1\n"
+SKEWED = "Subfactor,Type,Coolant,Film,Cladding,Gap,Fuel\nPower,Direct,1.05,1.02,1.02,1.04,1.03\nFlow,Direct,1.03,1,1,1,1\nProperties,Statistical,1.02,1.1,1.05,1.2,1.1\nFilm HTC,Statistical,1,1.12,1,1,1\n"
 _IDX = {'clad_od': 5, 'clad_mw': 6, 'clad_id': 7, 'fuel_od': 8, 'fuel_cl': 9}
 
 
@@ -233,12 +233,30 @@ def oracle_analyze(ctx, rng, n):
         case['types'] = {k: case['types'][k] for k in names}
         for i, a in enumerate(case['assignment']):
             a['type'] = names[i % n_types] if rng.random() < 0.8 else rng.choice(names)
-        where = rng.choice(['clad_od', 'clad_mw']) if ci % 4 != 3 else 'coolant'
+        where = rng.choice(['clad_od', 'clad_mw', 'clad_id', 'fuel_od', 'fuel_cl']) if ci % 4 != 3 else 'coolant'
         for tn in names:
             if where != 'coolant' or rng.random() < 0.4:
                 case['types'][tn]['FuelModel'] = dict(fuel)          # (a coolant hot spot needs no pin model)
             case['types'][tn]['Hotspot'] = {'hs': dict(temperature=where, input_sigma=3, output_sigma=2, subfactors=path)}
         gi.random_power(rng, case)
+        if ci % 2 == 1 or where in ('clad_od', 'clad_id', 'fuel_od'):
+            # axially peaked pin power (low - high - low) with a random tilt over the pins: the peaks of the different radial
+            # locations then lie at different heights and in different pins (coolant-dominated ones near the top, power-dominated
+            # ones in the high-power zone), so the rises must be those at the requested location's own peak
+            L_ = case['core']['length']
+            zb_ = [0.0, round(0.35 * L_, 4), round(0.6 * L_, 4), L_]
+            amp_ = [rng.uniform(0.2, 0.5), 1.0, rng.uniform(0.05, 0.3)]
+            rows_ = []
+            for asm_ in case['assignment']:
+                a_i = gi.position_index(asm_['ring'], asm_['pos'])
+                npin_ = gi.n_pins(case['types'][asm_['type']]['num_rings'])
+                base_ = rng.uniform(8e3, 3e4)
+                for k_ in range(3):
+                    tilt_ = [rng.uniform(0.6, 1.4) for _ in range(npin_)]
+                    for idx_ in range(npin_):
+                        rows_.append([a_i, 1, zb_[k_], zb_[k_ + 1], idx_ + 1, base_ * amp_[k_] * tilt_[idx_]])
+            case['power'] = dict(rows=rows_, n_terms=1, zbnds=zb_, total_power=None, scaling=1.0)
+            ctx.count("analyze_cases_axially_peaked")
         best = {}
 
         def cb(i, z, dz):
@@ -291,6 +309,8 @@ def oracle_analyze(ctx, rng, n):
                 want = own[1:]
             else:
                 subf, expr = hotspot._read_hcf_table(path, hotspot._COLS_NEEDED[where])
+                if where in ('clad_id', 'fuel_od', 'fuel_cl'):
+                    subf, expr = hotspot._split_clad_subfactors(subf, expr)
                 sf = hotspot._evaluate_hcf_expr(subf, expr, dT)
                 for typ in sf:
                     sf[typ] = sf[typ][:, :, :dT.shape[1]]
